@@ -111,6 +111,9 @@ class Result:
             dev = sys.modules.get("vf.sim.device")
             if dev is not None and "chunk_policy" not in extra:
                 extra["chunk_policy"] = getattr(dev, "LAST_POLICY", "as-written")   # how the simulated device's stream was cut (needed to replay)
+            rot = sys.modules.get("vf.sim.rotation")
+            if rot is not None and "rotation" not in extra:
+                extra["rotation"] = rot.snapshot()   # the other rotating harness choices of this case (client debug flag, hello fields)
             self.violations.append({"key": key, "what": what, "case": case, **extra})
 
     # -- (de)serialisation ---------------------------------------------------
